@@ -53,9 +53,15 @@ impl OutPat {
 
 /// Deliver `coded` (followed by NEXT) cut at `cuts` (ascending offsets into the coding where an
 /// arrival ends) and check everything C07 states. Returns false on violation.
+/// What follows the coding on the connection: the next response, possibly preceded by a stray CRLF
+/// (which a robust server-side framing may produce), something that looks like another last-chunk,
+/// or a lone CRLF. None of it may be touched.
+pub const TAILS: [&[u8]; 4] = [NEXT, b"\r\nHTTP/1.1 204 X\r\n\r\n", b"0\r\n\r\nHTTP/1.1 200 OK\r\n\r\n", b"\r\n"];
+
 pub fn run_coding(coded: &Coded, cuts: &[usize], pat: OutPat, stop: bool, rec: &mut Rec) -> bool {
+    let tail = TAILS[(coded.bytes.len() + cuts.len() + cuts.first().copied().unwrap_or(0)) % 4];
     let mut stream = coded.bytes.clone();
-    stream.extend_from_slice(NEXT);
+    stream.extend_from_slice(tail);
     let clen = coded.bytes.len();
     let mut f = chunked_body_flow();
     if stop {
@@ -154,16 +160,22 @@ pub fn run_coding(coded: &Coded, cuts: &[usize], pat: OutPat, stop: bool, rec: &
         rec.fail("C07/payload-incomplete", format!("delivered {} of {} payload bytes", out.len(), coded.data.len()));
         return false;
     }
-    // further reads change nothing
+    // further reads change nothing, whatever follows on the connection
     let mut buf = [0u8; 16];
-    rec.call();
-    match f.read(&stream[consumed..], &mut buf) {
-        Ok((0, 0)) => {}
-        other => {
-            rec.fail("C07/read-after-end", format!("read after the end -> {:?}", other));
-            return false;
+    for _ in 0..2 {
+        rec.call();
+        match f.read(&stream[consumed..], &mut buf) {
+            Ok((0, 0)) => {}
+            other => {
+                rec.fail(
+                    "C07/read-after-end",
+                    format!("a read after the end of the body, with {:?} next on the connection -> {:?}: bytes after the coding were consumed", esc_short(&stream[consumed..], 30), other),
+                );
+                return false;
+            }
         }
     }
+    rec.cov(&format!("tail/{}", if tail.starts_with(b"\r\n") { "starts-with-CRLF" } else if tail.starts_with(b"0") { "looks-like-last-chunk" } else { "next-response" }));
     true
 }
 
@@ -444,6 +456,8 @@ impl Property for P {
             v.push((format!("hook:dechunk:{}", e), 1000));
         }
         v.push(("boundary-stop/on".into(), 1000));
+        v.push(("tail/starts-with-CRLF".into(), 1000));
+        v.push(("tail/looks-like-last-chunk".into(), 1000));
         v.push(("boundary-stop/off".into(), 1000));
         v
     }
